@@ -146,9 +146,22 @@ func init() {
 			job(sc(sim.BoundaryNodesCfg("c01-boundary-34-nodes", 1, fMove|fRel|fVal|fBExch, oBasic).P("C01")), pick(tier, 2, 3), 1),
 			job(sc(sim.BoundaryEntitiesCfg("c01-boundary-64-entities-cap1", 62, 4, 1, fRet|fMove|fBNew|fVal, oBasic).P("C01")), pick(tier, 3, 4), 0.5),
 			job(sc(sim.BoundaryEntitiesCfg("c01-boundary-128-entities", 124, 4, 128, fRet|fMove|fBNew|fVal, oBasic).P("C01")), pick(tier, 3, 4), 0.5),
+			// values as seen from inside a listener: when an event is delivered the components hold what the operation wrote
+			job(sc(func() *sim.Cfg {
+				c := sim.RelCfg("c01-rel-k3-values-seen-by-listener", 0, 3, 0, 8, fBld|fVal|fMove|fRet|fBNew, oBasic|sim.OEvents)
+				c.Listener = true
+				return c.P("C01")
+			}()), pick(tier, 4, 6), 1),
+			job(sc(func() *sim.Cfg {
+				c := sim.CoreCfg("c01-core-k3-values-seen-by-listener", 3, 1, nil, fVal|fMove|fBNew|fBExch, oBasic|sim.OEvents)
+				c.Listener = true
+				return c.P("C01")
+			}()), pick(tier, 4, 5), 1),
 		}
 		return js
-	}, acceptProps("C01"))
+	}, func(f *wx.Failure, _ string) bool {
+		return f.Prop == "" || f.Prop == "C01" || strings.HasSuffix(f.Sig, ":early-values")
+	})
 
 	// C01 names both mask-width builds: a part of the portfolio also runs in the `tiny` build (64 bit masks)
 	c01tiny := func(tier string) []runner.Job {
@@ -179,6 +192,14 @@ func init() {
 				c := sim.EntCfg("c02-ent-k5-dumpload/base", 5, 1, fBNew|fBRem, oBasic)
 				return c.P("C02")
 			}(), Prop: "C02", Load: true}), pick(tier, 7, 10), 1),
+			job(scAny(&sim.PairCfg{ID: "c02-ent-k4-dumpload-reset", Base: func() *sim.Cfg {
+				c := sim.EntCfg("c02-ent-k4-dumpload-reset/base", 4, 1, fBNew|fBRem|fReset, oBasic)
+				return c.P("C02")
+			}(), Prop: "C02", Load: true}), pick(tier, 7, 10), 1),
+			job(scAny(&sim.PairCfg{ID: "c02-rel-k3-dumpload", Base: func() *sim.Cfg {
+				c := sim.RelCfg("c02-rel-k3-dumpload/base", 0, 3, 0, 1, fBld|fMove|fBNew, oBasic)
+				return c.P("C02")
+			}(), Prop: "C02", Load: true}), pick(tier, 5, 7), 1),
 		}
 	}, acceptProps("C02", "C17"))
 
@@ -223,6 +244,7 @@ func init() {
 			job(sc(sim.Rel2Cfg("c05-rel2-k3-batch", 3, 0, 1, fBld|fRel|fBSet|fBExch|fRelX, oBasic).P("C05")), pick(tier, 4, 6), 2),
 			job(sc(sim.RelCfg("c05-rel-k4-batch-retarget", 0, 4, 0, 8, fBld|fRet|fBSet|fMove, oBasic).P("C05")), pick(tier, 6, 8), 2),
 			job(sc(sim.RichOrphanCfg("c05-rich-orphan", 3, false, fMove|fRet|fRelX, oBasic).P("C05")), pick(tier, 4, 5), 1),
+			job(sc(sim.RelCfg("c05-rel-k3-registered-relation-filters", 0, 3, 0, 8, fBld|fRet|fReg|fBSet, oBasic).P("C05")), pick(tier, 5, 7), 2),
 		}
 	}, func(f *wx.Failure, last string) bool {
 		if f.Prop == "" || f.Prop == "C05" {
